@@ -12,7 +12,7 @@ LATTICE = {
     'peer': [(4, 1), (4, 2), (6, 1)],
     'origin': [None, 0, 2],
     'path': [None, (), ('a10',), ('a10', 'a20'), ('a30', 'a20'), ('s',), ('a10', 's'), ('o', 'a10'), ('a10', 'o'),
-             ('a100', 'a20')],
+             ('a100', 'a20'), ('a10', 'c'), ('c', 'a10', 'a20'), ('a10', 's', 'c', 'o')],
     'local_pref': [None, 50, 150],
     'med': [None, 0, 10, 20],
     'originator': [None, 1, 3],
